@@ -3,7 +3,7 @@
    - C03: the generated unpacker equals the reference decoder on EVERY input
    - basic-form closure of the reference encoder *)
 From Coq Require Import List String Ascii ZArith Bool Lia.
-From Verif Require Import Core TyModel.
+From Verif Require Import Core TupleIdx TyModel TyTuple.
 Import ListNotations.
 Open Scope string_scope.
 Open Scope Z_scope.
@@ -55,6 +55,10 @@ Section PvInd.
 End PvInd.
 
 
+(* element types of the unpacked segment of a tuple *)
+Definition mid_elems (mid: sty) : list sty :=
+  match mid with STupleVar t' => [t'] | STupleFix ts => ts | _ => [] end.
+
 (* induction principle for the type grammar (nested list in STupleFix) *)
 Section StyInd.
   Variable Q : sty -> Prop.
@@ -67,11 +71,16 @@ Section StyInd.
   Hypothesis H11 : forall f t, Q t -> Q (SSet f t).
   Hypothesis H12 : forall t, Q t -> Q (STupleVar t).
   Hypothesis H13 : forall ts, Forall Q ts -> Q (STupleFix ts).
+  Hypothesis H13u : forall pre, Forall Q pre -> forall mid, Q mid -> Forall Q (mid_elems mid) ->
+                    forall post, Forall Q post -> Q (STupleU pre mid post).
   Hypothesis H14 : forall kt, Q kt -> forall vt, Q vt -> Q (SDict kt vt).
   Hypothesis H15 : forall t, Q t -> Q (SOpt t).
   Hypothesis H16 : forall c, Q (SData c).
   Hypothesis H17 : forall c, Q (SNamed c).
   Hypothesis H18 : forall c, Q (STyped c).
+  Hypothesis H19 : forall t, Q t -> Q (SSeq t).
+  Hypothesis H20 : forall kt, Q kt -> forall vt, Q vt -> Q (SMap kt vt).
+  Hypothesis H21 : forall b t, Q t -> Q (SBox b t).
   Fixpoint sty_ind' (t: sty) : Q t :=
     match t with
     | SAny => H1 | SNoneT => H2 | SIntT => H3 | SFloatT => H4 | SBoolT => H5 | SStrT => H6
@@ -82,11 +91,23 @@ Section StyInd.
     | STupleFix ts =>
         H13 ts ((fix all (l: list sty) : Forall Q l :=
                    match l with [] => Forall_nil _ | x :: r => @Forall_cons _ Q x r (sty_ind' x) (all r) end) ts)
+    | STupleU pre mid post =>
+        let all := (fix all (l: list sty) : Forall Q l :=
+                      match l with [] => Forall_nil _ | x :: r => @Forall_cons _ Q x r (sty_ind' x) (all r) end) in
+        H13u pre (all pre) mid (sty_ind' mid)
+             (match mid as m return Forall Q (mid_elems m) with
+              | STupleVar t' => @Forall_cons _ Q t' [] (sty_ind' t') (Forall_nil _)
+              | STupleFix ts => all ts
+              | _ => Forall_nil _ end)
+             post (all post)
     | SDict kt vt => H14 kt (sty_ind' kt) vt (sty_ind' vt)
     | SOpt t' => H15 t' (sty_ind' t')
     | SData c => H16 c
     | SNamed c => H17 c
     | STyped c => H18 c
+    | SSeq t' => H19 t' (sty_ind' t')
+    | SMap kt vt => H20 kt (sty_ind' kt) vt (sty_ind' vt)
+    | SBox b t' => H21 b t' (sty_ind' t')
     end.
 End StyInd.
 
@@ -437,7 +458,7 @@ Section Conf.
       | SBytes m => match v with VBytes m' _ => Bool.eqb m m' | _ => false end
       | SLeaf k => match v with VLeaf k' _ => String.eqb k k' | _ => false end
       | SEnum e => match v with VEnum e' _ => String.eqb e e' | _ => false end
-      | SList t' => match v with VList l => forallb (fun x => conf_g x t') l | _ => false end
+      | SList t' | SSeq t' => match v with VList l => forallb (fun x => conf_g x t') l | _ => false end
       | SSet fr t' => match v with VSet fr' l => Bool.eqb fr fr' && forallb (fun x => conf_g x t') l | _ => false end
       | STupleVar t' => match v with VTuple l => forallb (fun x => conf_g x t') l | _ => false end
       | STupleFix ts =>
@@ -449,7 +470,22 @@ Section Conf.
                  | t' :: ts', x :: l' => conf_g x t' && go ts' l'
                  | _, _ => false end) ts l
           | _ => false end
-      | SDict kt vt =>
+      | STupleU pre mid post =>
+          match v with
+          | VTuple l =>
+              let cs : list (sty -> bool) := map (fun x => conf_g x) l in
+              let np := List.length pre in
+              let ns := List.length post in
+              let L := List.length l in
+              (np + ns <=? L)%nat &&
+              pos_all (fun t' cx => cx t') pre (firstn np cs) &&
+              (match mid with
+               | STupleVar t' => forallb (fun cx => cx t') (firstn (L - np - ns) (skipn np cs))
+               | STupleFix ts => pos_all (fun t' cx => cx t') ts (firstn (L - np - ns) (skipn np cs))
+               | _ => false end) &&
+              pos_all (fun t' cx => cx t') post (skipn (L - ns) cs)
+          | _ => false end
+      | SDict kt vt | SMap kt vt =>
           match v with
           | VDict kvs => nodup_keys kvs && forallb (fun p => match p with (k, x) => conf_g k kt && conf_g x vt end) kvs
           | _ => false end
@@ -492,6 +528,12 @@ Section Conf.
                                      | None => f.(sf_opt) end) k.(sc_fields)) &&
                   (if o then td_sorted (td_order k.(sc_fields)) kvs else true)
               end
+          | _ => false end
+      | SBox b t' =>
+          (* an instance of exactly that collection class around a conforming list / dict *)
+          match v with
+          | VObj c [(n, inner)] =>
+              String.eqb c (box_name b) && String.eqb n "" && chain_canon b inner && conf_g inner t'
           | _ => false end
       end.
 End Conf.
@@ -571,6 +613,16 @@ Section C02.
                     end) es l ;;
             Ok (VList r)
         | _ => Exn XTypeError end
+    | ETupleU plan pre emid post =>
+        let run := fun (e': penc) (dx: penc -> res pv) => dx e' in
+        let items : option (list (penc -> res pv)) :=
+            match v with VTuple l | VList l => Some (map (fun x => pk E P x) l) | _ => None end in
+        r <- tu_walk run (fun _ => None) items plan pre post
+               (match emid with
+                | EListComp e' => mid_var run e'
+                | ETupleFix es => mid_fix run (fun _ => None) (fun _ => Exn XIndexError) es
+                | _ => fun _ => Exn XTypeError end) ;;
+        Ok (VList r)
     | EData c =>
         match v with
         | VObj c' fs =>
@@ -618,6 +670,10 @@ Section C02.
             | _ => Exn XTypeError
             end
         end
+    | EBox ch e' =>
+        match v with
+        | VObj _ [(_, inner)] => if chain_empty ch inner then Ok (VList [VDict []]) else pk E P inner e'
+        | _ => Exn XAttributeError end
     end.
   Proof. destruct v, e; reflexivity. Qed.
 
@@ -627,7 +683,7 @@ Section C02.
     | SBytes _ => match v with VBytes _ b => Ok (VStr (P.(p_b64enc) b)) | _ => Exn XTypeError end
     | SLeaf _ => match v with VLeaf k w => Ok (P.(p_render) k w) | _ => Exn XAttributeError end
     | SEnum _ => match v with VEnum en mn => lift (P.(p_enum_value) en mn) | _ => Exn XAttributeError end
-    | SList t' | SSet _ t' | STupleVar t' =>
+    | SList t' | SSet _ t' | STupleVar t' | SSeq t' =>
         match v with
         | VList l | VTuple l | VSet _ l => r <- mapM (fun x => ref_enc E P x t') l ;; Ok (VList r)
         | _ => Exn XTypeError end
@@ -642,7 +698,20 @@ Section C02.
                     end) ts l ;;
             Ok (VList r)
         | _ => Exn XTypeError end
-    | SDict kt vt =>
+    | STupleU pre mid post =>
+        match v with
+        | VTuple l | VList l =>
+            if (List.length l <? List.length pre + List.length post)%nat then Exn XIndexError
+            else
+              let run := fun (t': sty) (dx: sty -> res pv) => dx t' in
+              r <- tu_split run (fun _ => None) (map (fun x => ref_enc E P x) l) pre post
+                     (match mid with
+                      | STupleVar t' => mid_var run t'
+                      | STupleFix ts => mid_fix run (fun _ => None) (fun _ => Exn XIndexError) ts
+                      | _ => fun _ => Exn XTypeError end) ;;
+              Ok (VList r)
+        | _ => Exn XTypeError end
+    | SDict kt vt | SMap kt vt =>
         match v with
         | VDict kvs =>
             r <- mapM (fun p => match p with (k, x) =>
@@ -697,6 +766,10 @@ Section C02.
             | _ => Exn XTypeError
             end
         end
+    | SBox b t' =>
+        match v with
+        | VObj _ [(_, inner)] => if chain_empty (is_chain b) inner then Ok (VList [VDict []]) else ref_enc E P inner t'
+        | _ => Exn XAttributeError end
     end.
   Proof. destruct v, t; reflexivity. Qed.
 
@@ -711,7 +784,7 @@ Section C02.
     | SBytes m => match v with VBytes m' _ => Bool.eqb m m' | _ => false end
     | SLeaf k => match v with VLeaf k' _ => String.eqb k k' | _ => false end
     | SEnum e => match v with VEnum e' _ => String.eqb e e' | _ => false end
-    | SList t' => match v with VList l => forallb (fun x => conf_g o E x t') l | _ => false end
+    | SList t' | SSeq t' => match v with VList l => forallb (fun x => conf_g o E x t') l | _ => false end
     | SSet fr t' => match v with VSet fr' l => Bool.eqb fr fr' && forallb (fun x => conf_g o E x t') l | _ => false end
     | STupleVar t' => match v with VTuple l => forallb (fun x => conf_g o E x t') l | _ => false end
     | STupleFix ts =>
@@ -723,7 +796,22 @@ Section C02.
                | t' :: ts', x :: l' => conf_g o E x t' && go ts' l'
                | _, _ => false end) ts l
         | _ => false end
-    | SDict kt vt =>
+    | STupleU pre mid post =>
+        match v with
+        | VTuple l =>
+            let cs : list (sty -> bool) := map (fun x => conf_g o E x) l in
+            let np := List.length pre in
+            let ns := List.length post in
+            let L := List.length l in
+            (np + ns <=? L)%nat &&
+            pos_all (fun t' cx => cx t') pre (firstn np cs) &&
+            (match mid with
+             | STupleVar t' => forallb (fun cx => cx t') (firstn (L - np - ns) (skipn np cs))
+             | STupleFix ts => pos_all (fun t' cx => cx t') ts (firstn (L - np - ns) (skipn np cs))
+             | _ => false end) &&
+            pos_all (fun t' cx => cx t') post (skipn (L - ns) cs)
+        | _ => false end
+    | SDict kt vt | SMap kt vt =>
         match v with
         | VDict kvs => nodup_keys kvs && forallb (fun p => match p with (k, x) => conf_g o E k kt && conf_g o E x vt end) kvs
         | _ => false end
@@ -767,6 +855,11 @@ Section C02.
                 (if o then td_sorted (td_order k.(sc_fields)) kvs else true)
             end
         | _ => false end
+    | SBox b t' =>
+        match v with
+        | VObj c [(n, inner)] =>
+            String.eqb c (box_name b) && String.eqb n "" && chain_canon b inner && conf_g o E inner t'
+        | _ => false end
     end.
   Proof. destruct v, t; reflexivity. Qed.
 
@@ -785,13 +878,83 @@ Section C02.
     is_id (cp true t') = true -> mapM (fun x => ref_enc E P x t') l = Ok l.
   Proof. intros H. apply mapM_id. intros x _. apply is_id_cp_true. exact H. Qed.
 
+  (* tuple with an unpacked segment: the plan-driven generated form reads a conforming
+     (hence long enough) tuple exactly as head / middle / tail *)
+  Lemma conf_tupleu_parts l pre mid post : conf_g o E (VTuple l) (STupleU pre mid post) = true ->
+    (List.length pre + List.length post <= List.length l)%nat /\
+    pos_all (fun t' x => conf_g o E x t') pre (firstn (List.length pre) l) = true /\
+    (match mid with
+     | STupleVar t' => forallb (fun x => conf_g o E x t') (firstn (List.length l - List.length pre - List.length post) (skipn (List.length pre) l))
+     | STupleFix ts => pos_all (fun t' x => conf_g o E x t') ts (firstn (List.length l - List.length pre - List.length post) (skipn (List.length pre) l))
+     | _ => false end) = true /\
+    pos_all (fun t' x => conf_g o E x t') post (skipn (List.length l - List.length post) l) = true.
+  Proof.
+    intros HC. rewrite conf_unfold in HC. cbv zeta in HC.
+    apply andb_prop in HC. destruct HC as [HC Hpost]. apply andb_prop in HC. destruct HC as [HC Hmid].
+    apply andb_prop in HC. destruct HC as [Hlen Hpre]. apply Nat.leb_le in Hlen.
+    rewrite firstn_map, pos_all_map in Hpre. rewrite skipn_map, pos_all_map in Hpost.
+    rewrite skipn_map, firstn_map in Hmid.
+    repeat split; try assumption.
+    destruct mid; try exact Hmid.
+    - rewrite forallb_map' in Hmid. exact Hmid.
+    - rewrite pos_all_map in Hmid. exact Hmid.
+  Qed.
+
+  Lemma conf_tupleu_intro l pre mid post :
+    (List.length pre + List.length post <= List.length l)%nat ->
+    pos_all (fun t' x => conf_g o E x t') pre (firstn (List.length pre) l) = true ->
+    (match mid with
+     | STupleVar t' => forallb (fun x => conf_g o E x t') (firstn (List.length l - List.length pre - List.length post) (skipn (List.length pre) l))
+     | STupleFix ts => pos_all (fun t' x => conf_g o E x t') ts (firstn (List.length l - List.length pre - List.length post) (skipn (List.length pre) l))
+     | _ => false end) = true ->
+    pos_all (fun t' x => conf_g o E x t') post (skipn (List.length l - List.length post) l) = true ->
+    conf_g o E (VTuple l) (STupleU pre mid post) = true.
+  Proof.
+    intros Hlen Hpre Hmid Hpost. rewrite conf_unfold. cbv zeta.
+    rewrite !skipn_map, !firstn_map.
+    rewrite (pos_all_map _ _ pre), Hpre. rewrite (pos_all_map _ _ post), Hpost.
+    rewrite (proj2 (Nat.leb_le _ _) Hlen). cbn [andb]. rewrite andb_true_r.
+    destruct mid; try exact Hmid.
+    - rewrite forallb_map'. exact Hmid.
+    - rewrite pos_all_map. exact Hmid.
+  Qed.
+
+  Lemma pk_tupleu l pre mid post cbn : Forall pk_ok l ->
+    conf_g o E (VTuple l) (STupleU pre mid post) = true ->
+    pk E P (VTuple l) (cp cbn (STupleU pre mid post)) = ref_enc E P (VTuple l) (STupleU pre mid post).
+  Proof.
+    intros IHl HC. destruct (conf_tupleu_parts _ _ _ _ HC) as [Hlen [Hpre [Hmid Hpost]]].
+    cbn [cp]. rewrite pk_unfold, ref_enc_unfold. cbv zeta.
+    replace (List.length l <? List.length pre + List.length post)%nat with false by (symmetry; apply Nat.ltb_ge; exact Hlen).
+    rewrite <- (map_length (cp true) pre) at 1. rewrite <- (map_length (cp true) post) at 1.
+    rewrite tu_walk_split by (rewrite !map_length; exact Hlen).
+    assert (Hr: forall (d: sty) (x: pv), In x l -> conf_g o E x d = true -> pk E P x (cp true d) = ref_enc E P x d).
+    { intros d x Hx Hq. apply (Forall_In _ _ IHl x Hx d true Hq). intros Hc; discriminate Hc. }
+    f_equal.
+    apply (tu_split_rel_all (cp true) (fun x => pk E P x) (fun x => ref_enc E P x)
+             (fun (e': penc) (dx: penc -> res pv) => dx e') (fun (t': sty) (dx: sty -> res pv) => dx t')
+             (fun _ => None) (fun _ => None)
+             (fun t' x => conf_g o E x t') (fun _ => eq_refl) l pre post); try assumption.
+    destruct mid; try discriminate Hmid; cbn [cp].
+    - apply (mid_var_rel_all (cp true) (fun x => pk E P x) (fun x => ref_enc E P x)
+               (fun (e': penc) (dx: penc -> res pv) => dx e') (fun (t': sty) (dx: sty -> res pv) => dx t')
+               (fun t' x => conf_g o E x t')); [exact Hmid|].
+      intros x Hx Hq. apply Hr; [|exact Hq]. apply (in_skipn _ _ _ (in_firstn _ _ _ Hx)).
+    - apply (mid_fix_rel_all (cp true) (fun x => pk E P x) (fun x => ref_enc E P x)
+               (fun (e': penc) (dx: penc -> res pv) => dx e') (fun (t': sty) (dx: sty -> res pv) => dx t')
+               (fun _ => None) (fun _ => None) (fun _ => Exn XIndexError) (fun _ => Exn XIndexError)
+               (fun t' x => conf_g o E x t') (fun _ => eq_refl)); [exact Hmid|].
+      intros d x Hx Hq. apply Hr; [|exact Hq]. apply (in_skipn _ _ _ (in_firstn _ _ _ Hx)).
+  Qed.
+
   Theorem pk_cp_ref : forall v, pk_ok v.
   Proof.
     induction v as [ | b | z | f | s | m b | l IHl | l IHl | fr l IHl | kvs IHk | c fs IHf | e m | k w | c l IHl | tg ]
       using pv_rect'; unfold pk_ok.
     (* every case: inner induction on the type is only needed for SOpt, so destruct and recurse there *)
-    all: intros t; induction t as [ | | | | | | m' | k' | e' | t' IHt | fr' t' IHt | t' IHt | ts | kt IHkt vt IHvt | t' IHt | c' | c' | c' ];
-      intros cbn HC HG; rewrite conf_unfold in HC; rewrite ref_enc_unfold;
+    all: intros t; induction t as [ | | | | | | m' | k' | e' | t' IHt | fr' t' IHt | t' IHt | ts | pre mid IHmid post | kt IHkt vt IHvt | t' IHt | c' | c' | c' | t' IHt | kt IHkt vt IHvt | bx t' IHt ];
+      intros cbn HC HG; try (solve [apply (pk_tupleu _ _ _ _ _ IHl HC)]);
+      rewrite conf_unfold in HC; rewrite ref_enc_unfold;
       try discriminate HC;
       try (cbn [cp]; rewrite pk_unfold; reflexivity).
     (* remaining goals are handled uniformly below *)
@@ -800,6 +963,8 @@ Section C02.
                 apply IHt; [ cbn [is_none orb] in HC; exact HC | intros Hc; discriminate ]
               | cbn [is_none orb] in HC; cbn [is_none];
                 apply IHt; [ exact HC | intros _ _; reflexivity ] ]).
+    (* comprehensions without the copy shortcut: variadic tuples, Sequence *)
+    all: try solve [ cbn [cp]; rewrite pk_unfold; rewrite (pk_list_elems l t' IHl HC); reflexivity ].
     - (* VNone, SOpt *)
       destruct cbn; [cbn [cp]; rewrite pk_unfold; reflexivity|].
       specialize (HG eq_refl eq_refl). discriminate.
@@ -807,8 +972,6 @@ Section C02.
       cbn [cp]. unfold seq_expr. destruct (is_id (cp true t')) eqn:Hid; rewrite pk_unfold.
       + rewrite seq_copy_ok by exact Hid. reflexivity.
       + rewrite (pk_list_elems l t' IHl HC). reflexivity.
-    - (* VTuple, STupleVar *)
-      cbn [cp]. rewrite pk_unfold. rewrite (pk_list_elems l t' IHl HC). reflexivity.
     - (* VTuple, STupleFix *)
       cbn [cp]. rewrite pk_unfold. f_equal.
       clear HG. revert ts HC. induction l as [|x l IHl']; intros ts HC.
@@ -850,6 +1013,14 @@ Section C02.
       destruct (look_In _ _ _ El) as [key [Hin _]].
       pose proof (Forall_In _ _ IHk (key, x) Hin) as [_ Qx]. cbn [snd] in Qx.
       rewrite (Qx (sf_ty f) true HCf) by (intros Hc; discriminate Hc). reflexivity.
+    - (* VDict, SMap: always the comprehension *)
+      apply andb_prop in HC. destruct HC as [Hnd HC].
+      cbn [cp]. rewrite pk_unfold. f_equal. apply mapM_ext_in. intros [k x] Hp.
+      pose proof (Forall_In _ _ IHk (k, x) Hp) as [Qk Qx]. cbn [fst snd] in Qk, Qx.
+      rewrite forallb_forall in HC. specialize (HC (k, x) Hp). cbn in HC.
+      apply andb_prop in HC. destruct HC as [Ck Cx].
+      rewrite (Qk kt true Ck) by (intros Hc; discriminate).
+      rewrite (Qx vt true Cx) by (intros Hc; discriminate). reflexivity.
     - (* VObj, SData *)
       apply andb_prop in HC. destruct HC as [_ HC].
       cbn [cp]. rewrite pk_unfold. destruct (sfind E _ c') as [k|]; [|reflexivity].
@@ -866,6 +1037,12 @@ Section C02.
           rewrite (Qx (sf_ty f) false Hx).
           -- rewrite (IHfs Qfs fds Hr). reflexivity.
           -- intros _ Hnl. unfold sfield_nullable in Hnull. rewrite Hnl in Hnull. cbn [orb andb] in Hnull. exact Hnull.
+    - (* VObj, SBox: the comprehension runs on the content *)
+      destruct fs as [|[n inner] [|]]; try discriminate HC.
+      apply andb_prop in HC. destruct HC as [_ HC].
+      cbn [cp]. rewrite pk_unfold. destruct (chain_empty (is_chain bx) inner); [reflexivity|].
+      inversion IHf as [|? ? Qi _]; subst. cbn [snd] in Qi.
+      apply (Qi t' true HC). intros Hc; discriminate.
     - (* VNT, SNamed *)
       cbn [cp]. rewrite pk_unfold.
       apply andb_prop in HC. destruct HC as [_ HC].
@@ -901,25 +1078,48 @@ Section ConfMono.
   Variable E : senv.
   Definition mono_ok (v: pv) : Prop := forall t, conf_ord E v t = true -> conf E v t = true.
 
+  Lemma conf_tupleu_mono l pre mid post : Forall mono_ok l ->
+    conf_ord E (VTuple l) (STupleU pre mid post) = true -> conf E (VTuple l) (STupleU pre mid post) = true.
+  Proof.
+    intros IHl HC.
+    destruct (conf_tupleu_parts _ _ _ _ _ _ HC) as [Hlen [Hpre [Hmid Hpost]]].
+    assert (Hm: forall d x, In x l -> conf_g true E x d = true -> conf_g false E x d = true)
+      by (intros d x Hx Hc; apply (Forall_In _ _ IHl x Hx); exact Hc).
+    apply conf_tupleu_intro; [exact Hlen | | |].
+    - refine (pos_all_impl_in _ _ _ _ _ Hpre). intros d x Hx. apply Hm. apply (in_firstn _ _ _ Hx).
+    - destruct mid; try discriminate Hmid.
+      + refine (forallb_impl_in _ _ _ _ Hmid). intros x Hx. apply Hm. apply (in_skipn _ _ _ (in_firstn _ _ _ Hx)).
+      + refine (pos_all_impl_in _ _ _ _ _ Hmid). intros d x Hx. apply Hm. apply (in_skipn _ _ _ (in_firstn _ _ _ Hx)).
+    - refine (pos_all_impl_in _ _ _ _ _ Hpost). intros d x Hx. apply Hm. apply (in_skipn _ _ _ Hx).
+  Qed.
+
   Theorem conf_ord_conf : forall v, mono_ok v.
   Proof.
     induction v as [ | b | z | f | s | m b | l IHl | l IHl | fr l IHl | kvs IHk | c fs IHf | e m | k w | c l IHl | tg ]
       using pv_rect'; unfold mono_ok.
-    all: intros t; induction t as [ | | | | | | m' | k' | e' | t' IHt | fr' t' IHt | t' IHt | ts | kt IHkt vt IHvt | t' IHt | c' | c' | c' ];
-      intros HC; rewrite conf_unfold in HC; rewrite conf_unfold; try exact HC; try discriminate HC.
+    all: intros t; induction t as [ | | | | | | m' | k' | e' | t' IHt | fr' t' IHt | t' IHt | ts | pre mid IHmid post | kt IHkt vt IHvt | t' IHt | c' | c' | c' | t' IHt | kt IHkt vt IHvt | bx t' IHt ];
+      intros HC; try (solve [apply (conf_tupleu_mono _ _ _ _ IHl HC)]);
+      rewrite conf_unfold in HC; rewrite conf_unfold; try exact HC; try discriminate HC.
     (* Optional *)
     all: try solve [ cbn [is_none orb] in HC |- *; apply IHt; exact HC ].
     (* homogeneous containers *)
     all: try solve [ try (apply andb_prop in HC; destruct HC as [Hfr HC]; rewrite Hfr; cbn [andb]);
                      refine (forallb_impl_in _ _ _ _ HC); intros x Hx Hc; apply (Forall_In _ _ IHl x Hx); exact Hc ].
+    (* dict / Mapping *)
+    all: try solve [
+      apply andb_prop in HC; destruct HC as [Hnd HC]; rewrite Hnd; cbn [andb];
+      refine (forallb_impl_in _ _ _ _ HC); intros [k x] Hp Hc; apply andb_prop in Hc; destruct Hc as [Ck Cx];
+      destruct (Forall_In _ _ IHk (k, x) Hp) as [Qk Qx]; cbn [fst snd] in Qk, Qx; rewrite (Qk kt Ck), (Qx vt Cx); reflexivity ].
+    (* boxed collections *)
+    all: try solve [
+      destruct fs as [|[n inner] [|]]; try discriminate HC;
+      apply andb_prop in HC; destruct HC as [Hc HC];
+      rewrite Hc; cbn [andb];
+      inversion IHf as [|? ? Qi _]; subst; cbn [snd] in Qi; apply Qi; exact HC ].
     - (* fixed tuple *)
       revert ts HC. induction l as [|x l IHl']; intros ts HC; destruct ts as [|t1 ts]; try discriminate HC; [reflexivity|].
       apply andb_prop in HC. destruct HC as [Cx Cl]. inversion IHl as [|? ? Qx Ql]; subst.
       rewrite (Qx t1 Cx). apply (IHl' Ql ts Cl).
-    - (* dict *)
-      apply andb_prop in HC. destruct HC as [Hnd HC]. rewrite Hnd. cbn [andb].
-      refine (forallb_impl_in _ _ _ _ HC). intros [k x] Hp Hc. apply andb_prop in Hc. destruct Hc as [Ck Cx].
-      destruct (Forall_In _ _ IHk (k, x) Hp) as [Qk Qx]. cbn [fst snd] in Qk, Qx. rewrite (Qk kt Ck), (Qx vt Cx). reflexivity.
     - (* TypedDict: drop the order, keep the rest *)
       destruct (sfind E _ c') as [k0|]; [|discriminate HC].
       apply andb_prop in HC. destruct HC as [HC _]. apply andb_prop in HC. destruct HC as [HC HCf]. rewrite HC. cbn [andb].
@@ -951,17 +1151,106 @@ Section C03.
   Variable E : senv.
   Variable P : prims.
 
-  Lemma none_tail_cu ts : none_tail (map (cu true) ts) = none_tail_t ts.
+  Lemma omapM_ext_in {A B} (f g: A -> option B) l : (forall x, In x l -> f x = g x) -> omapM f l = omapM g l.
   Proof.
-    induction ts as [|t ts IH]; [reflexivity|].
-    cbn [map none_tail none_tail_t]. rewrite IH.
-    destruct t as [ | | | | | | | | | | | | [|t1 ts1] | | t' | | | ]; reflexivity.
+    induction l as [|a l IH]; intros H; [reflexivity|].
+    cbn [omapM]. rewrite (H a (or_introl eq_refl)), IH; [reflexivity|]. intros x Hx. apply H. right. exact Hx.
   Qed.
 
-  Lemma konst_u_t f : konst_u f = konst_t f.
+  Lemma omapM_map {A B C} (h: A -> B) (f: B -> option C) l : omapM f (map h l) = omapM (fun x => f (h x)) l.
+  Proof. induction l as [|a l IH]; [reflexivity|]. cbn [map omapM]. rewrite IH. reflexivity. Qed.
+
+  Lemma const_dec_n_unfold n u : const_dec_n E n u =
+    match u with
+    | UScalar SNone => Some VNone
+    | UTupleFix us => match omapM (const_dec_n E n) us with Some cs => Some (VTuple cs) | None => None end
+    | UTupleU _ pre umid post =>
+        match omapM (const_dec_n E n) pre, (match umid with UTupleFix us => omapM (const_dec_n E n) us | _ => None end), omapM (const_dec_n E n) post with
+        | Some a, Some m, Some b => Some (VTuple (a ++ m ++ b))
+        | _, _, _ => None end
+    | UNamed c =>
+        match n with
+        | O => None
+        | S n' =>
+            match sfind E KNamed c with
+            | None => None
+            | Some k =>
+                if has_default k.(sc_fields) then None
+                else match omapM (fun f => const_dec_n E n' (cu true f.(sf_ty))) k.(sc_fields) with
+                     | Some cs => Some (VNT c cs)
+                     | None => None end
+            end
+        end
+    | _ => None end.
+  Proof. destruct n, u; reflexivity. Qed.
+
+  Lemma const_ty_n_unfold n t : const_ty_n E n t =
+    match t with
+    | SNoneT => Some VNone
+    | STupleFix ts => match omapM (const_ty_n E n) ts with Some cs => Some (VTuple cs) | None => None end
+    | STupleU pre mid post =>
+        match omapM (const_ty_n E n) pre, (match mid with STupleFix ts => omapM (const_ty_n E n) ts | _ => None end), omapM (const_ty_n E n) post with
+        | Some a, Some m, Some b => Some (VTuple (a ++ m ++ b))
+        | _, _, _ => None end
+    | SNamed c =>
+        match n with
+        | O => None
+        | S n' =>
+            match sfind E KNamed c with
+            | None => None
+            | Some k =>
+                if has_default k.(sc_fields) then None
+                else match omapM (fun f => const_ty_n E n' f.(sf_ty)) k.(sc_fields) with
+                     | Some cs => Some (VNT c cs)
+                     | None => None end
+            end
+        end
+    | _ => None end.
+  Proof. destruct n, t; reflexivity. Qed.
+
+  Lemma opt_tuple_inj (a b: option (list pv)) :
+    match a with Some cs => Some (VTuple cs) | None => None end = match b with Some cs => Some (VTuple cs) | None => None end -> a = b.
+  Proof. destruct a, b; intros H; inversion H; reflexivity. Qed.
+
+  Lemma const_tupleu_step m pre mid post :
+    Forall (fun t => const_dec_n E m (cu true t) = const_ty_n E m t) pre ->
+    const_dec_n E m (cu true mid) = const_ty_n E m mid ->
+    Forall (fun t => const_dec_n E m (cu true t) = const_ty_n E m t) post ->
+    const_dec_n E m (cu true (STupleU pre mid post)) = const_ty_n E m (STupleU pre mid post).
   Proof.
-    unfold konst_u, konst_t. destruct (sf_ty f) as [ | | | | | | | | | | | | [|t1 ts1] | | t' | | | ]; reflexivity.
+    intros Hpre Hmid Hpost. cbn [cu]. rewrite const_dec_n_unfold, const_ty_n_unfold.
+    rewrite !omapM_map.
+    rewrite (omapM_ext_in _ (const_ty_n E m) pre) by (intros x Hx; apply (Forall_In _ _ Hpre x Hx)).
+    rewrite (omapM_ext_in _ (const_ty_n E m) post) by (intros x Hx; apply (Forall_In _ _ Hpost x Hx)).
+    destruct mid; cbn [cu] in *; try reflexivity.
+    rewrite const_dec_n_unfold, const_ty_n_unfold in Hmid. rewrite (opt_tuple_inj _ _ Hmid). reflexivity.
   Qed.
+
+  (* constant-ness is decided alike by the generator and by the reference *)
+  Lemma const_dec_cu_n n : forall t, const_dec_n E n (cu true t) = const_ty_n E n t.
+  Proof.
+    induction n as [|n IHn].
+    all: induction t as [ | | | | | | m' | k' | e' | t' IHt | fr' t' IHt | t' IHt | ts IHts | pre IHpre mid IHmid IHmide post IHpost | kt IHkt vt IHvt | t' IHt | c' | c' | c' | t' IHt | kt IHkt vt IHvt | bx t' IHt ]
+      using sty_ind'; try (solve [apply const_tupleu_step; assumption]);
+      cbn [cu]; rewrite const_dec_n_unfold, const_ty_n_unfold; try reflexivity.
+    all: try (match goal with |- context [omapM (const_dec_n E ?m) (map (cu true) ?l)] =>
+                rewrite omapM_map; rewrite (omapM_ext_in _ (const_ty_n E m) l);
+                [reflexivity | intros x Hx; apply (Forall_In _ _ IHts x Hx)] end).
+    destruct (sfind E KNamed c') as [k|]; [|reflexivity]. destruct (has_default (sc_fields k)); [reflexivity|].
+    rewrite (omapM_ext_in _ (fun f => const_ty_n E n (sf_ty f))); [reflexivity | intros f _; apply IHn].
+  Qed.
+
+  Lemma const_dec_cu t : const_dec E (cu true t) = const_ty E t.
+  Proof. apply const_dec_cu_n. Qed.
+
+  Lemma none_tail_cu ts : none_tail E (map (cu true) ts) = none_tail_t E ts.
+  Proof.
+    induction ts as [|t ts IH]; [reflexivity|].
+    cbn [map none_tail none_tail_t]. rewrite IH, const_dec_cu. reflexivity.
+  Qed.
+
+  Lemma konst_u_t f : (konst_u E) f = (konst_t E) f.
+  Proof. unfold konst_u, konst_t. apply const_dec_cu. Qed.
 
   Lemma uk_str_unfold n u s : uk_str E P n u s =
     match u with
@@ -979,9 +1268,16 @@ Section C03.
         r <- (fix go (us: list pdec) (l: list string) {struct us} : res (list pv) :=
                 match us, l with
                 | [], _ => Ok []
-                | _ :: _, [] => none_tail us
+                | _ :: _, [] => none_tail E us
                 | u' :: us', x :: l' => y <- uk_str E P n u' x ;; ys <- go us' l' ;; Ok (y :: ys)
                 end) us (utf8_chars s) ;;
+        Ok (VTuple r)
+    | UTupleU plan pre umid post =>
+        r <- tu_walk (uk_str E P n) (const_dec E) (Some (utf8_chars s)) plan pre post
+               (match umid with
+                | UTupleVar u' => mid_var (uk_str E P n) u'
+                | UTupleFix us => mid_fix (uk_str E P n) (const_dec E) (none_tail E) us
+                | _ => fun _ => Exn XTypeError end) ;;
         Ok (VTuple r)
     | UDictComp _ _ => Exn XAttributeError
     | UData c => match sfind E KData c with
@@ -994,7 +1290,7 @@ Section C03.
             match n with
             | O => Exn XRecursion
             | S n' =>
-                r <- nt_items (fun f x => uk_str E P n' (cu true f.(sf_ty)) x) konst_u
+                r <- nt_items (fun f x => uk_str E P n' (cu true f.(sf_ty)) x) (konst_u E)
                               (nt_exhausted (has_default k.(sc_fields))) k.(sc_fields) (utf8_chars s) ;;
                 Ok (VNT c r)
             end
@@ -1002,11 +1298,12 @@ Section C03.
     | UTyped c =>
         match sfind E KTyped c with
         | None => Exn XAttributeError
-        | Some k => td_nondict konst_u k.(sc_fields) end
+        | Some k => td_nondict (konst_u E) k.(sc_fields) end
+    | UBox b u' => r <- uk_str E P n u' s ;; Ok (box_val b r)
     end.
   Proof. destruct n, u; reflexivity. Qed.
 
-  Lemma ref_dec_str_unfold n t s : ref_dec_str E P n t s =
+  Lemma ref_dec_str_unfold sm n t s : ref_dec_str_g E P sm n t s =
     match t with
     | SAny => Ok (VStr s)
     | SNoneT => Ok VNone
@@ -1017,20 +1314,22 @@ Section C03.
     | SBytes m => b <- lift (P.(p_b64dec) (VStr s)) ;; Ok (VBytes m b)
     | SLeaf k => w <- lift (P.(p_parse) k (VStr s)) ;; Ok (VLeaf k w)
     | SEnum e => mn <- lift (P.(p_enum_of) e (VStr s)) ;; Ok (VEnum e mn)
-    | SList t' => r <- mapM (ref_dec_str E P n t') (utf8_chars s) ;; Ok (VList r)
-    | SSet fr t' => r <- mapM (ref_dec_str E P n t') (utf8_chars s) ;;
+    | SList t' | SSeq t' => r <- mapM (ref_dec_str_g E P sm n t') (utf8_chars s) ;; Ok (VList r)
+    | SSet fr t' => r <- mapM (ref_dec_str_g E P sm n t') (utf8_chars s) ;;
         if forallb hashable r then Ok (VSet fr (set_of_list r)) else Exn XTypeError
-    | STupleVar t' => r <- mapM (ref_dec_str E P n t') (utf8_chars s) ;; Ok (VTuple r)
+    | STupleVar t' => r <- mapM (ref_dec_str_g E P sm n t') (utf8_chars s) ;; Ok (VTuple r)
     | STupleFix ts =>
         r <- (fix go (ts: list sty) (l: list string) {struct ts} : res (list pv) :=
                 match ts, l with
                 | [], _ => Ok []
-                | _ :: _, [] => none_tail_t ts
-                | t' :: ts', x :: l' => y <- ref_dec_str E P n t' x ;; ys <- go ts' l' ;; Ok (y :: ys)
+                | _ :: _, [] => none_tail_t E ts
+                | t' :: ts', x :: l' => y <- ref_dec_str_g E P sm n t' x ;; ys <- go ts' l' ;; Ok (y :: ys)
                 end) ts (utf8_chars s) ;;
         Ok (VTuple r)
-    | SDict _ _ => Exn XAttributeError
-    | SOpt t' => ref_dec_str E P n t' s
+    | STupleU pre mid post =>
+        r <- tu_ref E sm (ref_dec_str_g E P sm n) (none_tail_t E) (utf8_chars s) pre mid post ;; Ok (VTuple r)
+    | SDict _ _ | SMap _ _ => Exn XAttributeError
+    | SOpt t' => ref_dec_str_g E P sm n t' s
     | SData c => match sfind E KData c with
                  | Some _ => Exn XValueError
                  | None => Exn XAttributeError end
@@ -1041,7 +1340,7 @@ Section C03.
             match n with
             | O => Exn XRecursion
             | S n' =>
-                r <- nt_items (fun f x => ref_dec_str E P n' f.(sf_ty) x) konst_t
+                r <- nt_items (fun f x => ref_dec_str_g E P sm n' f.(sf_ty) x) (konst_t E)
                               (nt_exhausted (has_default k.(sc_fields))) k.(sc_fields) (utf8_chars s) ;;
                 Ok (VNT c r)
             end
@@ -1049,25 +1348,38 @@ Section C03.
     | STyped c =>
         match sfind E KTyped c with
         | None => Exn XAttributeError
-        | Some k => td_nondict konst_t k.(sc_fields) end
+        | Some k => td_nondict (konst_t E) k.(sc_fields) end
+    | SBox b t' => r <- ref_dec_str_g E P sm n t' s ;; Ok (box_val b r)
     end.
   Proof. destruct n, t; reflexivity. Qed.
 
   (* for EVERY amount of fuel (so no acyclicity hypothesis is needed for the equality; with the
      fuel [List.length E] that [uk] / [ref_dec] supply, exhaustion needs a NamedTuple class that
      reaches itself through NamedTuple/container positions) *)
-  Lemma uk_str_ref n : forall t cbn s, uk_str E P n (cu cbn t) s = ref_dec_str E P n t s.
+  Lemma uk_str_ref n : forall t cbn s, uk_str E P n (cu cbn t) s = ref_dec_str_g E P false n t s.
   Proof.
     induction n as [|n IHn].
-    all: induction t as [ | | | | | | m' | k' | e' | t' IHt | fr' t' IHt | t' IHt | ts IHts | kt IHkt vt IHvt | t' IHt | c' | c' | c' ]
+    all: induction t as [ | | | | | | m' | k' | e' | t' IHt | fr' t' IHt | t' IHt | ts IHts | pre IHpre mid IHmid IHmide post IHpost | kt IHkt vt IHvt | t' IHt | c' | c' | c' | t' IHt | kt IHkt vt IHvt | bx t' IHt ]
       using sty_ind'; intros cbn s;
-      try (rewrite (ref_dec_str_unfold _ (SOpt t')); destruct cbn; cbn [cu]; [rewrite uk_str_unfold|]; apply IHt);
+      try (rewrite (ref_dec_str_unfold _ _ (SOpt t')); destruct cbn; cbn [cu]; [rewrite uk_str_unfold|]; apply IHt);
       cbn [cu]; rewrite uk_str_unfold, ref_dec_str_unfold; try reflexivity.
     all: try (f_equal; apply mapM_ext_in; intros x _; apply IHt).
     all: try (f_equal; generalize (utf8_chars s) as l; induction IHts as [|t1 ts H1 Hts IH]; intros l;
               [ reflexivity
               | cbn [map]; destruct l as [|x l]; [exact (none_tail_cu (t1 :: ts))|]; rewrite H1; rewrite IH; reflexivity ]).
     all: try (destruct (sfind E _ c') as [k|]; [|reflexivity]; apply td_nondict_ext; exact konst_u_t).
+    all: try solve [ f_equal; unfold tu_ref; rewrite <- (map_id (utf8_chars s));
+      apply (tu_walk_rel (cu true) (fun x: string => x) (fun x: string => x) (uk_str E P _) (ref_dec_str_g E P false _)
+               (const_dec E) (const_ty E) (Some (utf8_chars s)));
+      [ intros d _; apply const_dec_cu
+      | intros d x Hd _; apply in_app_or in Hd; destruct Hd as [Hd|Hd];
+        [ apply (Forall_In _ _ IHpre d Hd) | apply (Forall_In _ _ IHpost d Hd) ]
+      | intros i j; cbn [option_map]; destruct mid; cbn [cu]; try reflexivity;
+        [ apply (mid_var_rel (cu true) (fun x: string => x) (fun x: string => x) _ _ (Some _));
+          intros x _; inversion IHmide as [|? ? Hq _]; apply Hq
+        | apply (mid_fix_rel (cu true) (fun x: string => x) (fun x: string => x) _ _ _ _ _ _ none_tail_cu (Some _));
+          [ intros d _; apply const_dec_cu | intros d x Hd _; apply (Forall_In _ _ IHmide d Hd) ] ] ] ].
+    all: try solve [ rewrite IHt; reflexivity ].
     - destruct (sfind E _ c') as [k|]; [|reflexivity]. f_equal.
       apply nt_items_ext; [ intros f x _; apply IHn | exact konst_u_t | reflexivity ].
   Qed.
@@ -1082,9 +1394,13 @@ Section C03.
     (* number of NamedTuple classes a str can descend through, starting at a type *)
     Fixpoint need (t: sty) : nat :=
       match t with
-      | SList t' | SSet _ t' | STupleVar t' | SOpt t' => need t'
+      | SList t' | SSet _ t' | STupleVar t' | SOpt t' | SSeq t' | SBox _ t' => need t'
       | STupleFix ts => (fix go (l: list sty) : nat := match l with [] => O | t' :: r => Nat.max (need t') (go r) end) ts
-      | SNamed c => S (rk c)
+      | STupleU pre mid post =>
+          Nat.max ((fix go (l: list sty) : nat := match l with [] => O | t' :: r => Nat.max (need t') (go r) end) pre)
+                  (Nat.max (need mid)
+                           ((fix go (l: list sty) : nat := match l with [] => O | t' :: r => Nat.max (need t') (go r) end) post))
+      | SNamed c => match sfind E KNamed c with Some _ => S (rk c) | None => O end
       | _ => O end.
 
     Hypothesis ranked : forall c k, sfind E KNamed c = Some k ->
@@ -1116,10 +1432,10 @@ Section C03.
       destruct (mapM f l) as [ys|e]; [intros Hc; discriminate Hc | exact Hl].
     Qed.
 
-    Lemma nrec_none_tail_t ts : nrec (none_tail_t ts).
+    Lemma nrec_none_tail_t ts : nrec (none_tail_t E ts).
     Proof.
       induction ts as [|t ts IH]; cbn [none_tail_t]; [intros H; discriminate H|].
-      destruct (const_ty t); [|intros H; discriminate H]. apply nrec_bind; [exact IH | intros a H; discriminate H].
+      destruct (const_ty E t); [|intros H; discriminate H]. apply nrec_bind; [exact IH | intros a H; discriminate H].
     Qed.
 
     Lemma nrec_nt_exhausted hd rest : nrec (nt_exhausted hd rest).
@@ -1162,10 +1478,87 @@ Section C03.
       cbn [need] in H. constructor; [lia | apply IH; cbn [need]; lia].
     Qed.
 
-    Theorem ref_dec_str_no_recursion n : forall t s, (need t <= n)%nat -> nrec (ref_dec_str E P n t s).
+    Lemma need_tupleu_le pre mid post n : (need (STupleU pre mid post) <= n)%nat ->
+      Forall (fun t' => (need t' <= n)%nat) pre /\ (need mid <= n)%nat /\ Forall (fun t' => (need t' <= n)%nat) post.
+    Proof.
+      intros H. cbn [need] in H. repeat split.
+      - apply need_fix_le. cbn [need]. lia.
+      - lia.
+      - apply need_fix_le. cbn [need]. lia.
+    Qed.
+
+    Lemma need_mid_elems mid n : (need mid <= n)%nat -> Forall (fun t' => (need t' <= n)%nat) (mid_elems mid).
+    Proof.
+      intros H. destruct mid; cbn [mid_elems]; try constructor.
+      - exact H.
+      - constructor.
+      - apply need_fix_le. exact H.
+    Qed.
+
+    Lemma nrec_tu_ones {T X} (run: T -> X -> res pv) konst items plan ds :
+      (forall d x, In d ds -> nrec (run d x)) -> nrec (tu_ones run konst items plan ds).
+    Proof.
+      revert plan. induction ds as [|d ds IH]; intros plan Hr; destruct plan as [|a plan]; cbn [tu_ones]; try (intros H; discriminate H).
+      assert (Ha: nrec (tu_at run konst items a d)).
+      { unfold tu_at. destruct (konst d); [intros H; discriminate H|]. destruct items as [l|]; [|intros H; discriminate H].
+        destruct a; [|intros H; discriminate H]. destruct (nth_signed l i); [apply Hr; left; reflexivity | intros H; discriminate H]. }
+      destruct (tu_at run konst items a d) as [y|e]; [|exact (nrec_exn e Ha)].
+      assert (Hl: nrec (tu_ones run konst items plan ds)) by (apply IH; intros d0 x0 Hd0; apply Hr; right; exact Hd0).
+      destruct (tu_ones run konst items plan ds); [intros H; discriminate H | exact Hl].
+    Qed.
+
+    Lemma nrec_pos_walk {T X} (run: T -> X -> res pv) konst ds (l: list X) :
+      (forall d x, In d ds -> nrec (run d x)) -> nrec (pos_walk run konst ds l).
+    Proof.
+      revert l. induction ds as [|d ds IH]; intros l Hr; destruct l as [|x l]; cbn [pos_walk]; try (intros H; discriminate H).
+      assert (Ha: nrec (match konst d with Some c => Ok c | None => run d x end)).
+      { destruct (konst d); [intros H; discriminate H | apply Hr; left; reflexivity]. }
+      destruct (match konst d with Some c => Ok c | None => run d x end) as [y|e]; [|exact (nrec_exn e Ha)].
+      assert (Hl: nrec (pos_walk run konst ds l)) by (apply IH; intros d0 x0 Hd0; apply Hr; right; exact Hd0).
+      destruct (pos_walk run konst ds l); [intros H; discriminate H | exact Hl].
+    Qed.
+
+    Lemma nrec_fix_walk {T X} (run: T -> X -> res pv) tail ds (l: list X) :
+      (forall d x, In d ds -> nrec (run d x)) -> (forall ds', nrec (tail ds')) -> nrec (fix_walk run tail ds l).
+    Proof.
+      intros Hr Ht. revert l Hr. induction ds as [|d ds IH]; intros l Hr; destruct l as [|x l]; cbn [fix_walk];
+        try (intros H; discriminate H); [apply Ht|].
+      pose proof (Hr d x (or_introl eq_refl)) as Ha. destruct (run d x) as [y|e]; [|exact (nrec_exn e Ha)].
+      assert (Hl: nrec (fix_walk run tail ds l)) by (apply IH; intros d0 x0 Hd0; apply Hr; right; exact Hd0).
+      destruct (fix_walk run tail ds l); [intros H; discriminate H | exact Hl].
+    Qed.
+
+    Lemma nrec_tu_ref {X} sm (run: sty -> X -> res pv) (l: list X) pre mid post :
+      (forall d x, In d (pre ++ mid_elems mid ++ post) -> nrec (run d x)) ->
+      nrec (tu_ref E sm run (none_tail_t E) l pre mid post).
+    Proof.
+      intros Hr.
+      assert (Hm: forall sl, nrec (match mid with
+                                   | STupleVar t' => mid_var run t'
+                                   | STupleFix ts => mid_fix run (const_ty E) (none_tail_t E) ts
+                                   | _ => fun _ => Exn XTypeError end sl)).
+      { intros sl. destruct mid; try (intros H; discriminate H).
+        - unfold mid_var. destruct sl; [|intros H; discriminate H]. apply nrec_mapM. intros x _. apply Hr.
+          apply in_or_app. right. apply in_or_app. left. left. reflexivity.
+        - unfold mid_fix. destruct (omapM _ _); [intros H; discriminate H|]. destruct sl; [|intros H; discriminate H].
+          apply nrec_fix_walk; [|apply nrec_none_tail_t]. intros d x Hd. apply Hr. apply in_or_app. right. apply in_or_app. left. exact Hd. }
+      assert (Hp: forall d x, In d pre -> nrec (run d x)) by (intros d x Hd; apply Hr; apply in_or_app; left; exact Hd).
+      assert (Hq: forall d x, In d post -> nrec (run d x)) by (intros d x Hd; apply Hr; apply in_or_app; right; apply in_or_app; right; exact Hd).
+      unfold tu_ref. destruct sm.
+      - destruct (_ <? _)%nat; [intros H; discriminate H|]. unfold tu_split.
+        apply nrec_bind; [apply nrec_pos_walk; exact Hp|]. intros a.
+        apply nrec_bind; [apply Hm|]. intros m.
+        apply nrec_bind; [apply nrec_pos_walk; exact Hq|]. intros b H. discriminate H.
+      - unfold tu_walk.
+        apply nrec_bind; [apply nrec_tu_ones; exact Hp|]. intros a.
+        apply nrec_bind; [destruct (nth_error _ _) as [[|]|]; try (intros H; discriminate H); apply Hm|]. intros m.
+        apply nrec_bind; [apply nrec_tu_ones; exact Hq|]. intros b H. discriminate H.
+    Qed.
+
+    Theorem ref_dec_str_no_recursion sm n : forall t s, (need t <= n)%nat -> nrec (ref_dec_str_g E P sm n t s).
     Proof.
       induction n as [|n IHn].
-      all: induction t as [ | | | | | | m' | k' | e' | t' IHt | fr' t' IHt | t' IHt | ts IHts | kt IHkt vt IHvt | t' IHt | c' | c' | c' ]
+      all: induction t as [ | | | | | | m' | k' | e' | t' IHt | fr' t' IHt | t' IHt | ts IHts | pre IHpre mid IHmid IHmide post IHpost | kt IHkt vt IHvt | t' IHt | c' | c' | c' | t' IHt | kt IHkt vt IHvt | bx t' IHt ]
         using sty_ind'; intros s Hn; rewrite ref_dec_str_unfold;
         try (intros H; discriminate H); try apply nrec_coerce;
         try (apply nrec_bind; [apply nrec_lift | intros a H; discriminate H]);
@@ -1181,18 +1574,91 @@ Section C03.
                 | inversion Hall as [|? ? Hn1 Hall']; subst; destruct l as [|x l];
                   [ apply nrec_none_tail_t
                   | apply nrec_bind; [apply H1; exact Hn1 | intros y; apply nrec_bind; [apply (IH Hall') | intros ys H; discriminate H]] ] ]).
+      all: try solve [ destruct (need_tupleu_le _ _ _ _ Hn) as [Hp [Hm Hq]];
+                       apply nrec_bind; [|intros a H; discriminate H]; apply nrec_tu_ref;
+                       intros d x Hd; apply in_app_or in Hd; destruct Hd as [Hd|Hd];
+                       [ apply (Forall_In _ _ IHpre d Hd); apply (Forall_In _ _ Hp d Hd)
+                       | apply in_app_or in Hd; destruct Hd as [Hd|Hd];
+                         [ apply (Forall_In _ _ IHmide d Hd); apply (Forall_In _ _ (need_mid_elems _ _ Hm) d Hd)
+                         | apply (Forall_In _ _ IHpost d Hd); apply (Forall_In _ _ Hq d Hd) ] ] ].
+      all: try solve [ apply nrec_bind; [apply IHt; exact Hn | intros a H; discriminate H] ].
       - (* a NamedTuple class with no fuel left: excluded by the bound *)
-        cbn [need] in Hn. lia.
-      - destruct (sfind E _ c') as [k|] eqn:Ef; [|intros H; discriminate H].
+        cbn [need] in Hn. destruct (sfind E _ c') as [k|]; [lia | intros H; discriminate H].
+      - cbn [need] in Hn. destruct (sfind E _ c') as [k|] eqn:Ef; [|intros H; discriminate H].
         apply nrec_bind; [|intros a H; discriminate H].
         apply nrec_nt_items; [|apply nrec_nt_exhausted].
-        intros f x Hf. apply IHn. cbn [need] in Hn. pose proof (ranked c' k Ef f Hf). lia.
+        intros f x Hf. apply IHn. pose proof (ranked c' k Ef f Hf). lia.
     Qed.
 
     Corollary uk_str_no_recursion t cbn s : (need t <= List.length E)%nat ->
       uk_str E P (List.length E) (cu cbn t) s <> Exn XRecursion.
-    Proof. intros Hn. rewrite uk_str_ref. apply (ref_dec_str_no_recursion _ t s Hn). Qed.
+    Proof. intros Hn. rewrite uk_str_ref. apply (ref_dec_str_no_recursion false _ t s Hn). Qed.
   End Fuel.
+
+  (* ---------------------------------------------------------------- *)
+  (* a computable acyclicity check of the NamedTuple reference graph gives the rank function *)
+  Section Acyclic.
+    (* longest chain of NamedTuple classes a str can descend through below class [c], cut at depth [n] *)
+    Fixpoint rank_n (n: nat) (c: string) : nat :=
+      match n with
+      | O => O
+      | S n' =>
+          match sfind E KNamed c with
+          | Some k => fold_right Nat.max O (map (fun f => need (rank_n n') f.(sf_ty)) k.(sc_fields))
+          | None => O end
+      end.
+
+    (* the ranks computed with depth |E| do not grow any more with depth |E| + 1 (no cycle is being
+       unrolled) and stay below |E| *)
+    Definition acyclic : bool :=
+      let N := List.length E in
+      forallb (fun k => Nat.eqb (rank_n N k.(sc_name)) (rank_n (S N) k.(sc_name)) && (rank_n N k.(sc_name) <? N)%nat) E.
+
+    Lemma sfind_name kd c k : sfind E kd c = Some k -> sc_name k = c.
+    Proof.
+      induction E as [|x E' IH]; cbn [sfind]; [discriminate|].
+      destruct (ckind_eqb (sc_kind x) kd && String.eqb (sc_name x) c) eqn:Eq; [|exact IH].
+      intros H. inversion H; subst. apply andb_prop in Eq. apply String.eqb_eq. apply Eq.
+    Qed.
+
+    Lemma fold_max_ge (l: list nat) x : In x l -> (x <= fold_right Nat.max O l)%nat.
+    Proof. induction l as [|a l IH]; intros H; [destruct H|]. cbn [fold_right]. destruct H as [H|H]; [subst; lia | specialize (IH H); lia]. Qed.
+
+    Hypothesis Hacyc : acyclic = true.
+
+    Lemma acyclic_class c k : sfind E KNamed c = Some k ->
+      rank_n (List.length E) c = rank_n (S (List.length E)) c /\ (rank_n (List.length E) c < List.length E)%nat.
+    Proof.
+      intros Hf. destruct (sfind_In E _ c k Hf) as [Hin _]. pose proof (sfind_name _ _ _ Hf) as Hn.
+      unfold acyclic in Hacyc. cbv zeta in Hacyc. rewrite forallb_forall in Hacyc. specialize (Hacyc k Hin).
+      rewrite Hn in Hacyc. apply andb_prop in Hacyc. destruct Hacyc as [H1 H2].
+      split; [apply Nat.eqb_eq; exact H1 | apply Nat.ltb_lt; exact H2].
+    Qed.
+
+    Lemma acyclic_ranked c k : sfind E KNamed c = Some k ->
+      forall f, In f k.(sc_fields) -> (need (rank_n (List.length E)) f.(sf_ty) <= rank_n (List.length E) c)%nat.
+    Proof.
+      intros Hf f Hin. rewrite (proj1 (acyclic_class c k Hf)). cbn [rank_n]. rewrite Hf.
+      apply fold_max_ge. apply in_map_iff. exists f. split; [reflexivity | exact Hin].
+    Qed.
+
+    Lemma need_list_le rk n (l: list sty) : Forall (fun t => (need rk t <= n)%nat) l ->
+      ((fix go (l: list sty) : nat := match l with [] => O | t' :: r => Nat.max (need rk t') (go r) end) l <= n)%nat.
+    Proof. intros H. induction H as [|t l Ht Hl IH]; [lia|]. lia. Qed.
+
+    Lemma acyclic_bound : forall t, (need (rank_n (List.length E)) t <= List.length E)%nat.
+    Proof.
+      induction t as [ | | | | | | m' | k' | e' | t' IHt | fr' t' IHt | t' IHt | ts IHts | pre IHpre mid IHmid IHmide post IHpost | kt IHkt vt IHvt | t' IHt | c' | c' | c' | t' IHt | kt IHkt vt IHvt | bx t' IHt ]
+        using sty_ind'; cbn [need]; try lia; try exact IHt.
+      - apply need_list_le. exact IHts.
+      - pose proof (need_list_le _ _ _ IHpre). pose proof (need_list_le _ _ _ IHpost). lia.
+      - destruct (sfind E KNamed c') as [k|] eqn:Ef; [|lia]. pose proof (proj2 (acyclic_class c' k Ef)). lia.
+    Qed.
+
+    (* the fuel [List.length E] never runs out on an acyclic table, for any type and any str *)
+    Theorem uk_str_no_recursion_acyclic t cbn s : uk_str E P (List.length E) (cu cbn t) s <> Exn XRecursion.
+    Proof. apply (uk_str_no_recursion (rank_n (List.length E)) acyclic_ranked t cbn s (acyclic_bound t)). Qed.
+  End Acyclic.
 
   Lemma uk_unfold d u : uk E P d u =
       match u with
@@ -1229,12 +1695,26 @@ Section C03.
               r <- (fix go (us: list pdec) (l: list pv) {struct l} : res (list pv) :=
                       match us, l with
                       | [], _ => Ok []                       (* surplus items are ignored *)
-                      | _ :: _, [] => none_tail us
+                      | _ :: _, [] => none_tail E us
                       | u' :: us', x :: l' => y <- uk E P x u' ;; ys <- go us' l' ;; Ok (y :: ys)
                       end) us l ;;
               Ok (VTuple r)
           | VStr s => uk_str E P (List.length E) u s
-          | _ => r <- none_tail us ;; Ok (VTuple r)     (* only constant positions never index the value *)
+          | _ => r <- none_tail E us ;; Ok (VTuple r)     (* only constant positions never index the value *)
+          end
+      | UTupleU plan pre umid post =>
+          match d with
+          | VStr s => uk_str E P (List.length E) u s
+          | _ =>
+              let run := fun (u': pdec) (dx: pdec -> res pv) => dx u' in
+              let items : option (list (pdec -> res pv)) :=
+                  match d with VList l | VTuple l => Some (map (fun x => uk E P x) l) | _ => None end in
+              r <- tu_walk run (const_dec E) items plan pre post
+                     (match umid with
+                      | UTupleVar u' => mid_var run u'
+                      | UTupleFix us => mid_fix run (const_dec E) (none_tail E) us
+                      | _ => fun _ => Exn XTypeError end) ;;
+              Ok (VTuple r)
           end
       | UDictComp ku vu =>
           match d with
@@ -1283,11 +1763,11 @@ Section C03.
           | Some k =>
               match d with
               | VList l | VTuple l =>
-                  r <- nt_items (fun f x => uk E P x (cu true f.(sf_ty))) konst_u
+                  r <- nt_items (fun f x => uk E P x (cu true f.(sf_ty))) (konst_u E)
                                 (nt_exhausted (has_default k.(sc_fields))) k.(sc_fields) l ;;
                   Ok (VNT c r)
               | VStr s => uk_str E P (List.length E) u s
-              | _ => r <- nt_tail konst_u (fun _ => Exn XTypeError) k.(sc_fields) ;; Ok (VNT c r)
+              | _ => r <- nt_tail (konst_u E) (fun _ => Exn XTypeError) k.(sc_fields) ;; Ok (VNT c r)
               end
           end
       | UTyped c =>
@@ -1298,16 +1778,17 @@ Section C03.
               | VDict kvs =>
                   let entries : list (pv * (pdec -> res pv)) :=
                       map (fun p => match p with (key, x) => (key, uk E P x) end) kvs in
-                  r <- td_go (fun f dx => dx (cu true f.(sf_ty))) konst_u XKeyError
+                  r <- td_go (fun f dx => dx (cu true f.(sf_ty))) (konst_u E) XKeyError
                              entries (td_order k.(sc_fields)) ;;
                   Ok (VDict r)
-              | _ => td_nondict konst_u k.(sc_fields)
+              | _ => td_nondict (konst_u E) k.(sc_fields)
               end
           end
+      | UBox b u' => r <- uk E P d u' ;; Ok (box_val b r)
       end.
   Proof. destruct d, u; reflexivity. Qed.
 
-  Lemma ref_dec_unfold d t : ref_dec E P d t =
+  Lemma ref_dec_unfold sm d t : ref_dec_g E P sm d t =
       match t with
       | SAny => Ok d
       | SNoneT => Ok VNone
@@ -1318,26 +1799,26 @@ Section C03.
       | SBytes m => b <- lift (P.(p_b64dec) d) ;; Ok (VBytes m b)
       | SLeaf k => w <- lift (P.(p_parse) k d) ;; Ok (VLeaf k w)
       | SEnum e => mn <- lift (P.(p_enum_of) e d) ;; Ok (VEnum e mn)
-      | SList t' =>
+      | SList t' | SSeq t' =>
           match d with
-          | VList l | VTuple l | VSet _ l => r <- mapM (fun x => ref_dec E P x t') l ;; Ok (VList r)
-          | VDict kvs => r <- mapM (fun p => match p with (k, _) => ref_dec E P k t' end) kvs ;; Ok (VList r)
-          | VStr s => ref_dec_str E P (List.length E) t s
+          | VList l | VTuple l | VSet _ l => r <- mapM (fun x => ref_dec_g E P sm x t') l ;; Ok (VList r)
+          | VDict kvs => r <- mapM (fun p => match p with (k, _) => ref_dec_g E P sm k t' end) kvs ;; Ok (VList r)
+          | VStr s => ref_dec_str_g E P sm (List.length E) t s
           | _ => Exn XTypeError end
       | SSet fr t' =>
           match d with
           | VList l | VTuple l | VSet _ l =>
-              r <- mapM (fun x => ref_dec E P x t') l ;;
+              r <- mapM (fun x => ref_dec_g E P sm x t') l ;;
               if forallb hashable r then Ok (VSet fr (set_of_list r)) else Exn XTypeError
-          | VDict kvs => r <- mapM (fun p => match p with (k, _) => ref_dec E P k t' end) kvs ;;
+          | VDict kvs => r <- mapM (fun p => match p with (k, _) => ref_dec_g E P sm k t' end) kvs ;;
               if forallb hashable r then Ok (VSet fr (set_of_list r)) else Exn XTypeError
-          | VStr s => ref_dec_str E P (List.length E) t s
+          | VStr s => ref_dec_str_g E P sm (List.length E) t s
           | _ => Exn XTypeError end
       | STupleVar t' =>
           match d with
-          | VList l | VTuple l | VSet _ l => r <- mapM (fun x => ref_dec E P x t') l ;; Ok (VTuple r)
-          | VDict kvs => r <- mapM (fun p => match p with (k, _) => ref_dec E P k t' end) kvs ;; Ok (VTuple r)
-          | VStr s => ref_dec_str E P (List.length E) t s
+          | VList l | VTuple l | VSet _ l => r <- mapM (fun x => ref_dec_g E P sm x t') l ;; Ok (VTuple r)
+          | VDict kvs => r <- mapM (fun p => match p with (k, _) => ref_dec_g E P sm k t' end) kvs ;; Ok (VTuple r)
+          | VStr s => ref_dec_str_g E P sm (List.length E) t s
           | _ => Exn XTypeError end
       | STupleFix ts =>
           match d with
@@ -1345,22 +1826,36 @@ Section C03.
               r <- (fix go (ts: list sty) (l: list pv) {struct l} : res (list pv) :=
                       match ts, l with
                       | [], _ => Ok []
-                      | _ :: _, [] => none_tail_t ts
-                      | t' :: ts', x :: l' => y <- ref_dec E P x t' ;; ys <- go ts' l' ;; Ok (y :: ys)
+                      | _ :: _, [] => none_tail_t E ts
+                      | t' :: ts', x :: l' => y <- ref_dec_g E P sm x t' ;; ys <- go ts' l' ;; Ok (y :: ys)
                       end) ts l ;;
               Ok (VTuple r)
-          | VStr s => ref_dec_str E P (List.length E) t s
-          | _ => r <- none_tail_t ts ;; Ok (VTuple r)
+          | VStr s => ref_dec_str_g E P sm (List.length E) t s
+          | _ => r <- none_tail_t E ts ;; Ok (VTuple r)
           end
-      | SDict kt vt =>
+      | STupleU pre mid post =>
+          match d with
+          | VList l | VTuple l =>
+              r <- tu_ref E sm (fun (t': sty) (dx: sty -> res pv) => dx t') (none_tail_t E) (map (fun x => ref_dec_g E P sm x) l) pre mid post ;;
+              Ok (VTuple r)
+          | VStr s => ref_dec_str_g E P sm (List.length E) t s
+          | _ =>
+              r <- tu_walk (fun (t': sty) (dx: sty -> res pv) => dx t') (const_ty E) None
+                     (tu_plan (List.length pre) (List.length post)) pre post
+                     (match mid with
+                      | STupleFix ts => mid_fix (fun (t': sty) (dx: sty -> res pv) => dx t') (const_ty E) (none_tail_t E) ts
+                      | _ => fun _ => Exn XTypeError end) ;;
+              Ok (VTuple r)
+          end
+      | SDict kt vt | SMap kt vt =>
           match d with
           | VDict kvs =>
               r <- mapM (fun p => match p with (k, x) =>
-                                    k' <- ref_dec E P k kt ;; x' <- ref_dec E P x vt ;;
+                                    k' <- ref_dec_g E P sm k kt ;; x' <- ref_dec_g E P sm x vt ;;
                                     if hashable k' then Ok (k', x') else Exn XTypeError end) kvs ;;
               Ok (VDict (dict_of_pairs r))
           | _ => Exn XAttributeError end
-      | SOpt t' => if is_none d then Ok VNone else ref_dec E P d t'
+      | SOpt t' => if is_none d then Ok VNone else ref_dec_g E P sm d t'
       | SData c =>
           match sfind E KData c with
           | None => Exn XAttributeError
@@ -1368,7 +1863,7 @@ Section C03.
               match d with
               | VDict kvs =>
                   let entries : list (pv * (pv * (sty -> res pv))) :=
-                      map (fun p => match p with (key, x) => (key, (x, ref_dec E P x)) end) kvs in
+                      map (fun p => match p with (key, x) => (key, (x, ref_dec_g E P sm x)) end) kvs in
                   r <- (fix go (fds: list sfield) : res (list (string * pv)) :=
                           match fds with
                           | [] => Ok []
@@ -1388,7 +1883,7 @@ Section C03.
                               tl <- go rest ;; Ok ((f.(sf_name), y) :: tl)
                           end) k.(sc_fields) ;;
                   Ok (VObj c r)
-              | VStr s => ref_dec_str E P (List.length E) t s
+              | VStr s => ref_dec_str_g E P sm (List.length E) t s
               | _ => Exn XValueError
               end
           end
@@ -1398,11 +1893,11 @@ Section C03.
           | Some k =>
               match d with
               | VList l | VTuple l =>
-                  r <- nt_items (fun f x => ref_dec E P x f.(sf_ty)) konst_t
+                  r <- nt_items (fun f x => ref_dec_g E P sm x f.(sf_ty)) (konst_t E)
                                 (nt_exhausted (has_default k.(sc_fields))) k.(sc_fields) l ;;
                   Ok (VNT c r)
-              | VStr s => ref_dec_str E P (List.length E) t s
-              | _ => r <- nt_tail konst_t (fun _ => Exn XTypeError) k.(sc_fields) ;; Ok (VNT c r)
+              | VStr s => ref_dec_str_g E P sm (List.length E) t s
+              | _ => r <- nt_tail (konst_t E) (fun _ => Exn XTypeError) k.(sc_fields) ;; Ok (VNT c r)
               end
           end
       | STyped c =>
@@ -1412,25 +1907,86 @@ Section C03.
               match d with
               | VDict kvs =>
                   let entries : list (pv * (sty -> res pv)) :=
-                      map (fun p => match p with (key, x) => (key, ref_dec E P x) end) kvs in
-                  r <- td_go (fun f dx => dx f.(sf_ty)) konst_t XKeyError
+                      map (fun p => match p with (key, x) => (key, ref_dec_g E P sm x) end) kvs in
+                  r <- td_go (fun f dx => dx f.(sf_ty)) (konst_t E) XKeyError
                              entries (td_order k.(sc_fields)) ;;
                   Ok (VDict r)
-              | _ => td_nondict konst_t k.(sc_fields)
+              | _ => td_nondict (konst_t E) k.(sc_fields)
               end
           end
+      | SBox b t' => r <- ref_dec_g E P sm d t' ;; Ok (box_val b r)
       end.
   Proof. destruct d, t; reflexivity. Qed.
 
   Definition uk_ok (d: pv) : Prop :=
-    forall t cbn, none_guard cbn t d -> uk E P d (cu cbn t) = ref_dec E P d t.
+    forall t cbn, none_guard cbn t d -> uk E P d (cu cbn t) = ref_dec_g E P false d t.
+
+  (* tuple with an unpacked segment: the generated code and the lenient reading of the
+     reference walk the same index / slice plan with related item decoders *)
+  Lemma uk_tupleu d pre mid post cbn :
+    (forall x, In x (match d with VList l | VTuple l => l | _ => [] end) -> uk_ok x) ->
+    uk E P d (cu cbn (STupleU pre mid post)) = ref_dec_g E P false d (STupleU pre mid post).
+  Proof.
+    intros IH. cbn [cu]. rewrite uk_unfold, ref_dec_unfold.
+    assert (Hseq: forall l, (forall x, In x l -> uk_ok x) ->
+      (r <- tu_walk (fun (u': pdec) (dx: pdec -> res pv) => dx u') (const_dec E) (Some (map (fun x => uk E P x) l))
+              (tu_plan (List.length pre) (List.length post)) (map (cu true) pre) (map (cu true) post)
+              (match cu true mid with
+               | UTupleVar u' => mid_var (fun (u': pdec) (dx: pdec -> res pv) => dx u') u'
+               | UTupleFix us => mid_fix (fun (u': pdec) (dx: pdec -> res pv) => dx u') (const_dec E) (none_tail E) us
+               | _ => fun _ => Exn XTypeError end) ;; Ok (VTuple r)) =
+      (r <- tu_ref E false (fun (t': sty) (dx: sty -> res pv) => dx t') (none_tail_t E) (map (fun x => ref_dec_g E P false x) l) pre mid post ;;
+       Ok (VTuple r))).
+    { intros l IHl. f_equal. unfold tu_ref.
+      assert (Hr: forall (d': sty) (x: pv), In x l -> uk E P x (cu true d') = ref_dec_g E P false x d')
+        by (intros d' x Hx; apply (IHl x Hx); intros Hc; discriminate Hc).
+      apply (tu_walk_rel (cu true) (fun x => uk E P x) (fun x => ref_dec_g E P false x)
+               (fun (u': pdec) (dx: pdec -> res pv) => dx u') (fun (t': sty) (dx: sty -> res pv) => dx t')
+               (const_dec E) (const_ty E) (Some l)).
+      - intros d' _. apply const_dec_cu.
+      - intros d' x _ Hx. apply Hr. exact Hx.
+      - intros i j. cbn [option_map]. destruct mid; cbn [cu]; try reflexivity.
+        + apply (mid_var_rel (cu true) (fun x => uk E P x) (fun x => ref_dec_g E P false x) _ _ (Some _)).
+          intros x Hx. apply Hr. apply (slice_list_In _ _ _ _ Hx).
+        + apply (mid_fix_rel (cu true) (fun x => uk E P x) (fun x => ref_dec_g E P false x) _ _ _ _ _ _ none_tail_cu (Some _)).
+          * intros d' _. apply const_dec_cu.
+          * intros d' x _ Hx. apply Hr. apply (slice_list_In _ _ _ _ Hx). }
+    assert (Hoth:
+      (r <- tu_walk (fun (u': pdec) (dx: pdec -> res pv) => dx u') (const_dec E) None
+              (tu_plan (List.length pre) (List.length post)) (map (cu true) pre) (map (cu true) post)
+              (match cu true mid with
+               | UTupleVar u' => mid_var (fun (u': pdec) (dx: pdec -> res pv) => dx u') u'
+               | UTupleFix us => mid_fix (fun (u': pdec) (dx: pdec -> res pv) => dx u') (const_dec E) (none_tail E) us
+               | _ => fun _ => Exn XTypeError end) ;; Ok (VTuple r)) =
+      (r <- tu_walk (fun (t': sty) (dx: sty -> res pv) => dx t') (const_ty E) None
+              (tu_plan (List.length pre) (List.length post)) pre post
+              (match mid with
+               | STupleFix ts => mid_fix (fun (t': sty) (dx: sty -> res pv) => dx t') (const_ty E) (none_tail_t E) ts
+               | _ => fun _ => Exn XTypeError end) ;; Ok (VTuple r))).
+    { f_equal.
+      apply (tu_walk_rel (cu true) (fun x => uk E P x) (fun x => ref_dec_g E P false x)
+               (fun (u': pdec) (dx: pdec -> res pv) => dx u') (fun (t': sty) (dx: sty -> res pv) => dx t')
+               (const_dec E) (const_ty E) None).
+      - intros d' _. apply const_dec_cu.
+      - intros d' x _ [].
+      - intros i j. cbn [option_map]. destruct mid; cbn [cu]; try reflexivity.
+        apply (mid_fix_rel (cu true) (fun x => uk E P x) (fun x => ref_dec_g E P false x) _ _ _ _ _ _ none_tail_cu None).
+        + intros d' _. apply const_dec_cu.
+        + intros d' x _ []. }
+    destruct d; try exact Hoth.
+    - exact (uk_str_ref _ (STupleU pre mid post) true s).
+    - apply (Hseq l IH).
+    - apply (Hseq l IH).
+  Qed.
 
   Theorem uk_cu_ref : forall d, uk_ok d.
   Proof.
     induction d as [ | b | z | f | s | m b | l IHl | l IHl | fr l IHl | kvs IHk | c fs IHf | e m | k w | c l IHl | tg ]
       using pv_rect'; unfold uk_ok.
-    all: intros t; induction t as [ | | | | | | m' | k' | e' | t' IHt | fr' t' IHt | t' IHt | ts | kt IHkt vt IHvt | t' IHt | c' | c' | c' ];
-      intros cbn HG; cbn [cu]; try (rewrite uk_unfold, ref_dec_unfold; reflexivity).
+    all: intros t; induction t as [ | | | | | | m' | k' | e' | t' IHt | fr' t' IHt | t' IHt | ts | pre mid IHmid post | kt IHkt vt IHvt | t' IHt | c' | c' | c' | t' IHt | kt IHkt vt IHvt | bx t' IHt ];
+      intros cbn HG;
+      try (solve [ apply uk_tupleu; cbn; intros x Hx; first [ destruct Hx | apply (Forall_In _ _ IHl x Hx) ] ]);
+      cbn [cu]; try (rewrite uk_unfold, ref_dec_unfold; reflexivity).
     (* Optional *)
     all: try solve [ destruct cbn;
       [ rewrite uk_unfold, ref_dec_unfold; cbn [is_none];
@@ -1442,6 +1998,7 @@ Section C03.
                      first [ exact (uk_str_ref _ (SList t') true s)
                            | exact (uk_str_ref _ (SSet fr' t') true s)
                            | exact (uk_str_ref _ (STupleVar t') true s)
+                           | exact (uk_str_ref _ (SSeq t') true s)
                            | exact (uk_str_ref _ (STupleFix ts) true s) ] ].
     (* NamedTuple: sequences item-wise, a str through [uk_str], anything else only constants *)
     all: try solve [ rewrite uk_unfold, ref_dec_unfold; destruct (sfind E _ c') as [kc|]; [|reflexivity];
@@ -1457,8 +2014,22 @@ Section C03.
     all: try solve [ rewrite uk_unfold, ref_dec_unfold; rewrite (none_tail_cu ts); reflexivity ].
     (* homogeneous containers over list-like inputs *)
     all: try solve [ rewrite uk_unfold, ref_dec_unfold;
-                     rewrite (mapM_ext_in _ (fun x => ref_dec E P x t'));
+                     rewrite (mapM_ext_in _ (fun x => ref_dec_g E P false x t'));
                      [ reflexivity | intros x Hx; apply (Forall_In _ _ IHl x Hx); intros Hc; discriminate Hc ] ].
+    (* VDict iterated by a list decoder: its keys *)
+    all: try solve [ rewrite uk_unfold, ref_dec_unfold;
+      rewrite (mapM_ext_in _ (fun p : pv * pv => match p with (k, _) => ref_dec_g E P false k t' end)); [reflexivity|];
+      intros [k x] Hp; apply (proj1 (Forall_In _ _ IHk (k, x) Hp)); intros Hc; discriminate Hc ].
+    (* VDict, SDict / SMap *)
+    all: try solve [ rewrite uk_unfold, ref_dec_unfold;
+      rewrite (mapM_ext_in _ (fun p : pv * pv => match p with (k, x) =>
+                 k' <- ref_dec_g E P false k kt ;; x' <- ref_dec_g E P false x vt ;;
+                 if hashable k' then Ok (k', x') else Exn XTypeError end)); [reflexivity|];
+      intros [k x] Hp; destruct (Forall_In _ _ IHk (k, x) Hp) as [Qk Qx]; cbn [fst snd] in Qk, Qx;
+      rewrite (Qk kt true) by (intros Hc; discriminate Hc);
+      rewrite (Qx vt true) by (intros Hc; discriminate Hc); reflexivity ].
+    (* boxed collections: the inner unpacker, then the class *)
+    all: try solve [ rewrite uk_unfold, ref_dec_unfold; rewrite (IHt true) by (intros Hc; discriminate Hc); reflexivity ].
     - (* VStr, SData *)
       rewrite uk_unfold, ref_dec_unfold. rewrite ref_dec_str_unfold.
       destruct (sfind E _ c') as [k|]; reflexivity.
@@ -1478,24 +2049,6 @@ Section C03.
         inversion IHl as [|? ? Qx Ql]; subst.
         rewrite (Qx t1 true) by (intros Hc; discriminate Hc).
         rewrite (IHl' Ql ts). reflexivity.
-    - (* VDict iterated by a list decoder: its keys *)
-      rewrite uk_unfold, ref_dec_unfold.
-      rewrite (mapM_ext_in _ (fun p : pv * pv => match p with (k, _) => ref_dec E P k t' end)); [reflexivity|].
-      intros [k x] Hp. apply (proj1 (Forall_In _ _ IHk (k, x) Hp)). intros Hc; discriminate Hc.
-    - rewrite uk_unfold, ref_dec_unfold.
-      rewrite (mapM_ext_in _ (fun p : pv * pv => match p with (k, _) => ref_dec E P k t' end)); [reflexivity|].
-      intros [k x] Hp. apply (proj1 (Forall_In _ _ IHk (k, x) Hp)). intros Hc; discriminate Hc.
-    - rewrite uk_unfold, ref_dec_unfold.
-      rewrite (mapM_ext_in _ (fun p : pv * pv => match p with (k, _) => ref_dec E P k t' end)); [reflexivity|].
-      intros [k x] Hp. apply (proj1 (Forall_In _ _ IHk (k, x) Hp)). intros Hc; discriminate Hc.
-    - (* VDict, SDict *)
-      rewrite uk_unfold, ref_dec_unfold.
-      rewrite (mapM_ext_in _ (fun p : pv * pv => match p with (k, x) =>
-                 k' <- ref_dec E P k kt ;; x' <- ref_dec E P x vt ;;
-                 if hashable k' then Ok (k', x') else Exn XTypeError end)); [reflexivity|].
-      intros [k x] Hp. destruct (Forall_In _ _ IHk (k, x) Hp) as [Qk Qx]. cbn [fst snd] in Qk, Qx.
-      rewrite (Qk kt true) by (intros Hc; discriminate Hc).
-      rewrite (Qx vt true) by (intros Hc; discriminate Hc). reflexivity.
     - (* VDict, SData: the field loop *)
       rewrite uk_unfold, ref_dec_unfold.
       destruct (sfind E _ c') as [k|]; [|reflexivity].
@@ -1514,7 +2067,7 @@ Section C03.
       rewrite uk_unfold, ref_dec_unfold.
       destruct (sfind E _ c') as [k|]; [|reflexivity].
       cbv zeta. f_equal. apply td_go_ext. intros f _.
-      unfold td_field. rewrite (look_map (uk E P) kvs), (look_map (ref_dec E P) kvs). rewrite konst_u_t.
+      unfold td_field. rewrite (look_map (uk E P) kvs), (look_map (ref_dec_g E P false) kvs). rewrite konst_u_t.
       destruct (look kvs (sf_name f)) as [x|] eqn:El; cbn [option_map]; [|reflexivity].
       destruct (look_In _ _ _ El) as [key [Hin _]].
       pose proof (Forall_In _ _ IHk (key, x) Hin) as [_ Qx]. cbn [snd] in Qx.
@@ -1522,6 +2075,6 @@ Section C03.
   Qed.
 
   (* C03 for the codec entry point: BasicDecoder(T).decode(d), every input d *)
-  Corollary decode_is_ref d t : uk E P d (cu true t) = ref_dec E P d t.
+  Corollary decode_is_ref d t : uk E P d (cu true t) = ref_dec_g E P false d t.
   Proof. apply uk_cu_ref. intros Hc; discriminate Hc. Qed.
 End C03.
